@@ -24,6 +24,9 @@ def run(chk):
     backtest_rules.run_loop(chk, "C03")
     check_equiv(chk, "C03.R4", "bt/algos.py", "CapitalFlow", "__call__", CAPITAL_FLOW_REF, "capital-flow", "CapitalFlow adjusts the target by its amount as a flow that marks the tree stale")
     core_rules.accessor_rules(chk, "C03")
+    # a flow is recorded by the next refresh: the mutators that defer it (update=False) have to leave the tree marked, or the accumulator is wiped at the date roll
+    n = core_rules.defer_rules(chk, "C03", modules=("bt/core.py",), only_hosts=("StrategyBase.allocate", "StrategyBase.adjust", "StrategyBase.transact"))
+    chk.floor_count("C01.R6:deferred-update call sites", n, 2)
     core_rules.set_commissions_rules(chk, "C03")  # fees move the index only if the schedule reaches every strategy of the tree
     from .c05 import settings_reach_every_node
 
